@@ -27,11 +27,14 @@ KEYS = {
     'under': ('_under', '_under', r'\_under'),
     'sortdisp': ('beta', 'ZZZ', 'beta@ZZZ'),
     'quoted': ('a!b', 'a!b', 'a"!b'),
+    'under2': ('_other', '_other', r'\_other'),
+    'sd1': ('sym', 'Aleph', 'sym@Aleph'),
+    'sd2': ('sym', 'Beth', 'sym@Beth'),
     'sub': ('sub', 'sub', 'sub'),
     'Sub2': ('Sub2', 'Sub2', 'Sub2'),
 }
 PATHS = [['alpha'], ['alpha', 'sub'], ['alpha', 'Sub2'], ['alpha', 'sub', 'Sub2'], ['Beta'], ['elan'], ['echo'], ['zeta'], ['one'], ['plus'],
-         ['under'], ['sortdisp'], ['quoted']]
+         ['under'], ['under2'], ['sortdisp'], ['quoted'], ['sd1'], ['sd2'], ['Beta', 'sub'], ['zeta', 'sub', 'Sub2'], ['alpha', 'sd1'], ['alpha', 'sd2']]
 
 
 def collator():
@@ -100,6 +103,7 @@ CFG = '''CONSTANTS
   Paths <- MCPaths
   MaxEntries = %d
   Cols = 2
+  Fmts = {%s}
 INIT Init
 NEXT Next
 CHECK_DEADLOCK FALSE
@@ -221,19 +225,24 @@ def run(chk):
     if sorted(probe, key=mine) != sorted(probe, key=theirs):
         chk.violation('collator-selection', 'the index collator orders %s as %s; the selection rule (UCA via pyuca when importable) gives %s'
                       % (probe, sorted(probe, key=theirs), sorted(probe, key=mine)), probe)
+    ALLF = '"none", "see", "textbf"'
     maxe = 3
-    res = tlc.run('MC_Index', cfg_text=CFG % maxe, extra_modules={'MC_Index.tla': mc_module()}, timeout=3400, heap='12g')
-    chk.add_tlc(res, 'index(MaxEntries=%d)' % maxe)
-    if not res.ok:
-        chk.violation('design:' + ','.join(res.violated or ['error']),
-                      'TLC found a counterexample in the Index design: %s\n%s' % (res.violated, res.trace_text[:2500]))
-    behs = res.beh
-    if tier == 'quick' and len(behs) > 10000:
-        small = [b for b in behs if len(b['entries']) <= 2]
-        behs = small + random.Random(seed).sample([b for b in behs if len(b['entries']) > 2], 10000 - len(small))
+    behs = []
+    seenb = set()
+    for me, fm in ([(2, ALLF), (3, '"none"')] if tier == 'quick' else [(3, ALLF)]):
+        res = tlc.run('MC_Index', cfg_text=CFG % (me, fm), extra_modules={'MC_Index.tla': mc_module()}, timeout=3400, heap='12g')
+        chk.add_tlc(res, 'index(MaxEntries=%d,formats=%s)' % (me, fm))
+        if not res.ok:
+            chk.violation('design:' + ','.join(res.violated or ['error']),
+                          'TLC found a counterexample in the Index design: %s\n%s' % (res.violated, res.trace_text[:2500]))
+        for b in res.beh:
+            k = repr(b['entries'])
+            if k not in seenb:
+                seenb.add(k)
+                behs.append(b)
     # longer sequences by simulation
     nsim, dsim = (600, 6) if tier == 'quick' else (6000, 8)
-    rs = tlc.run('MC_Index', cfg_text=CFG % dsim, extra_modules={'MC_Index.tla': mc_module()}, simulate=nsim, depth=dsim + 2, seed=seed + 3,
+    rs = tlc.run('MC_Index', cfg_text=CFG % (dsim, ALLF), extra_modules={'MC_Index.tla': mc_module()}, simulate=nsim, depth=dsim + 2, seed=seed + 3,
                  timeout=3400, heap='8g', workers=4)
     chk.add_tlc(rs, 'simulate(num=%d,depth=%d)' % (nsim, dsim))
     if rs.violated:
